@@ -347,7 +347,7 @@ ColumnSteps(cols) ==
 OrderSteps(cols) ==
   LET KC == KeyCols(cols) IN
   {<<"order_rows", k, r, lim>> : k \in Bias(2, KeyLists(KC, Level) \ {<<>>}, HasT),
-       r \in Samp(2, {<<>>} \cup {<<c>> : c \in KC}), lim \in (IF Level = 1 THEN {0, 1} ELSE {0, 1, 2})}
+       r \in Samp(2, {<<>>} \cup {<<c>> : c \in KC}), lim \in (IF Level = 1 THEN {0, 1} ELSE {0, 1, 2, 0 - 1})}
 StackSteps ==
   {<<"table", t>> : t \in TabNames} \cup {<<"dup">>}
 BinarySteps(lcols, rcols) ==
@@ -363,10 +363,16 @@ BinarySteps(lcols, rcols) ==
      \cup {<<"concat", id>> : id \in {"", "src"}}
      \cup {<<"joinc", jt, <<<<c, c>>>>>> : jt \in {"INNER", "LEFT"}, c \in same}
 
+\* two-assignment extends over a small target pool: the shapes on which try_to_merge_ops decides (C06)
+Extend2Steps(cols) ==
+  LET N == KindCols(cols, "n")
+      E == {<<"b", "+", C(c), K(1)>> : c \in N}
+  IN {<<"extend", <<<<p[1], e1>>, <<p[2], e2>>>>>> : p \in Samp(3, Pairs({"x", "y", "z"})), e1 \in Samp(2, E), e2 \in Samp(2, E)}
 FocusAll == {"extend", "wextend", "project", "select_rows", "cols", "order", "stack", "binary"}
 FamSteps(f, stk) ==
   LET n == Len(stk) cols == stk[n].cols IN
   CASE f = "extend"      -> ExtendSteps(cols)
+    [] f = "extend2"     -> Extend2Steps(cols)
     [] f = "wextend"     -> WExtendSteps(cols)
     [] f = "project"     -> ProjectSteps(cols)
     [] f = "select_rows" -> SelectRowsSteps(cols)
@@ -530,7 +536,7 @@ StepLaw ==
       [] st[1] = "select_columns" -> post.cols = st[2] /\ Len(post.rows) = Len(pre.rows)
       [] st[1] = "order_rows" ->
            /\ IsSortedBy(post.rows, st[2], st[3])
-           /\ Len(post.rows) = (IF st[4] = 0 \/ st[4] > Len(pre.rows) THEN Len(pre.rows) ELSE st[4])
+           /\ Len(post.rows) = (IF st[4] = 0 \/ st[4] > Len(pre.rows) THEN Len(pre.rows) ELSE IF st[4] < 0 THEN 0 ELSE st[4])
            /\ SubBagSeq(post.rows, pre.rows)
            /\ post.cols = pre.cols
       [] st[1] = "join" -> JoinLaw(prev[n - 1], pre, st, post)
